@@ -186,12 +186,14 @@ prop("C17", "exploration",
      "follow-symlinks and a non-HTTP tag pattern; oracle = eligibility predicate written from the statement; non-trivial = a tree with eligible and "
      "ineligible files where a pattern or the age decides. Histories (W1): 1-4 source files plus hidden / locked / empty files; up to 70 steps of serve, "
      "wait, add / rewrite / append / touch, and replacing a file by a same-size file with an EARLIER modification time, between and during scans, "
+     "hashing and transmission, a quarter of the files being symbolic links to files outside the directory, with or without transport faults (refused, "
+     "lost answer, partial, cut, flipped byte); "
      "hashing and transmission; oracle = after a quiet period the current version of every name was transmitted in full, no version is delivered twice "
      "without a failed verdict, no arrival is a mixture (arrival monitor), ineligible files neither transmitted nor touched; non-trivial = a change made "
      "while requests were outstanding",
      [dict(pkg="storex", test="TestC17Scan", world="W0", quick=6000, thorough=200000, required_classes=["symlink-to-file", "disabled-at-root"]),
       dict(pkg="stagex", test="TestC17Sim", world="W1", quick=1000, thorough=40000, per_proc=60, shrink_runs=150,
-           required_classes=["replaced-by-older-file", "change-during-transmission"])],
+           required_classes=["replaced-by-older-file", "change-during-transmission", "symlink-to-file-as-source"])],
      ["file ages are 5 min / 3 h against a minimum age of 0 / 2 h, so the wall clock cannot flip a verdict",
       "for a symlink the statement does not say whose age counts; without link following the link's own time is used, with link following the target's",
       "the history unit runs in the simulation world (real Broker, store, cache, queue, payload, stage; harness-owned transport); whether a version that "
